@@ -64,8 +64,12 @@ def make_class(endogenous, check=None, exogenous=('X',), lags=0, leads=0, bases=
         def _norm(self, t):
             return t + len(self.span) if t < 0 else t
 
+        def _cells(self, t):
+            return {nm: float(self.__dict__['_' + nm][t]) for nm in self.ENDOGENOUS + self.EXOGENOUS}
+
         def solve_t_before(self, t, *args, **kwargs):
             self.__dict__['_log'].append(('before', self._norm(t), kwargs.get('iteration')))
+            self.__dict__['_vals'].append(('before', self._norm(t), None, self._cells(t)))
             super().solve_t_before(t, *args, **kwargs)
             name = self.__dict__['_hooks'].get('before')
             if name:
@@ -73,6 +77,7 @@ def make_class(endogenous, check=None, exogenous=('X',), lags=0, leads=0, bases=
 
         def solve_t_after(self, t, *args, **kwargs):
             self.__dict__['_log'].append(('after', self._norm(t), kwargs.get('iteration')))
+            self.__dict__['_vals'].append(('after', self._norm(t), None, self._cells(t)))
             super().solve_t_after(t, *args, **kwargs)
             name = self.__dict__['_hooks'].get('after')
             if name:
@@ -87,6 +92,7 @@ def make_class(endogenous, check=None, exogenous=('X',), lags=0, leads=0, bases=
             if tokens:
                 apply_pass(lambda nm: self.__dict__['_' + nm][t],
                            lambda nm, v: self.__dict__['_' + nm].__setitem__(t, v), tokens)
+            self.__dict__['_vals'].append(('pass', T, k, self._cells(t)))
             super()._evaluate(t, *args, **kwargs)
 
     return Scripted
@@ -96,6 +102,7 @@ def arm(model, script=None, hooks=None):
     model.__dict__['_script'] = dict(script or {})
     model.__dict__['_hooks'] = dict(hooks or {})
     model.__dict__['_log'] = []
+    model.__dict__['_vals'] = []
     return model
 
 
